@@ -1,7 +1,7 @@
 """C01 — Peer identity is cryptographically authenticated."""
 from .engine import AnchorLost, Undecidable
 from .lib import *
-from .mir import Origins, show, strip_identity, walk, name_matches, term_has_call
+from .mir import Origins, show, strip_identity, walk, name_matches, term_has_call, strip_generics
 
 CR = "anemo::crypto"
 CV = f"{CR}::CertVerifier"
@@ -189,6 +189,30 @@ def run(cx):
                         src = s["rv"]["from"]
             ob.require(src in (f"alloc::sync::Arc<{CV}>", f"alloc::sync::Arc<{EV}>"), f"client-verifier/type/{owner_path(prog, c.body)}",
                        f"{c.body.path}: server cert verifier has type {src}", c.body.path, c.body.loc(c.bb))
+        # every rustls config anemo builds goes through its verifiers on every successful path
+        for bname, vname in (("rustls::client::client_conn::ClientConfig::builder_with_provider", "with_custom_certificate_verifier"),
+                             ("rustls::server::server_conn::ServerConfig::builder_with_provider", "with_client_cert_verifier")):
+            for c in prog.callers_of((bname, bname.replace("builder_with_provider", "builder"), bname.replace("builder_with_provider", "builder_with_protocol_versions")), crates=A):
+                bdy = c.body
+                vs = bdy.calls_to(vname)
+                goods = []
+                for i, bl in enumerate(bdy.blocks):
+                    if bl.get("cleanup") or bl["t"]["k"] != "return":
+                        continue
+                    goods.append(i)
+                # returns reachable from the builder call without passing a verifier installation, that produce a config (not an Err propagation)
+                reach = bdy.reachable_from(c.bb, avoid=[v.bb for v in vs])
+                leaking = []
+                for i in reach:
+                    for s_ in bdy.blocks[i]["s"]:
+                        if s_["k"] == "assign" and s_["lhs"] == 0 and s_["rv"]["k"] == "agg" and s_["rv"].get("variant") == "Ok":
+                            leaking.append(i)
+                    t_ = bdy.blocks[i]["t"]
+                    if t_["k"] == "call" and t_.get("dest") == 0 and not name_matches(strip_generics(t_["func"].get("fn", "")), "FromResidual::from_residual"):
+                        leaking.append(i)
+                ob.require(bool(vs) and not leaking, f"tls-config/verifier-on-all-paths/{owner_path(prog, bdy)}",
+                           f"{bdy.path}: a TLS config is produced without {vname} on some path", bdy.path, bdy.loc(c.bb))
+        check_no_calls(ob, prog, ("with_root_certificates", "with_webpki_verifier", "with_platform_verifier"), crates=A, what="CA-based verifier")
         # the only quinn endpoint anemo creates is the one in Endpoint::new (no second listener with other verifiers)
         for ctor in ("quinn::endpoint::Endpoint::new", "quinn::endpoint::Endpoint::server", "quinn::endpoint::Endpoint::client", "quinn::endpoint::Endpoint::new_with_abstract_socket"):
             for c in prog.callers_of(ctor, crates=A):
